@@ -154,3 +154,18 @@ UNITS += [
     tacc('Control.isActive_T', CTL_CLS, 'isActive', r'^A$', [('C06,C01', '__CPROVER_return_value == (self->_core->registry.active == 0)')], props=['C06', 'C01', 'C18']),
     tacc('ConstControl.isActive_T', CCTL_CLS, 'isActive', r'^A$', [('C06,C01', '__CPROVER_return_value == (self->_core->registry.active == 0)')], props=['C06', 'C01', 'C18']),
 ]
+
+# ---- plan(): the view handed to user code refers to the machine's own plan data
+PC_CLS = r'^ffsm2::detail::PlanControlT<'
+def plan_view(id_, cls, const, core, recs=None, target_req=None, rv=''):
+    return dict(id='control.' + id_, witness=W, recs=recs or dict(CT_RECS, PlanT=r'^ffsm2::detail::PlanT<.*>>$', PayloadPlanT=r'^ffsm2::detail::PayloadPlanT<.*>>$', CPlanT=r'^ffsm2::detail::CPlanT<.*>>$', Bounds=r'^ffsm2::detail::Bounds$'),
+                opaque=OPAQUE, opaque_keep={'PlanDataT': ['tasksBounds', 'planExists']}, props=['C06', 'C10', 'C18'],
+                target=dict(cls=cls, name='plan', nparams=0, const=const), consts=CONSTS, ghost=GHOST,
+                contracts={'@target': dict(requires_target=target_req or [fresh('self'), fresh(core, '*' + core)], requires=[], assigns=[],
+                                           ensures=[('C06,C10', '__CPROVER_return_value%s._planData == &%s%splanData && __CPROVER_return_value%s._bounds == &%s%splanData.tasksBounds'
+                                                     % ((rv, core, '->' if core.endswith('_core') and '->' in core else '.', rv, core, '->' if core.endswith('_core') and '->' in core else '.')))])})
+UNITS += [
+    # (with a payload type the mutable view is a PayloadPlanT, whose PlanT part is its base sub-object)
+    plan_view('PlanControl.plan.PayloadPlan', PC_CLS, False, 'self->_b0._core', rv='._b0'),
+    plan_view('PlanControl.plan_c', PC_CLS, True, 'self->_b0._core'),
+]
